@@ -38,6 +38,8 @@ type Engine struct {
 	concurrency concurrencyModel
 	implCache   map[string][]types.Type
 	aliasCache  map[string]types.Type
+	epochCounter int
+	outOfLine   map[string]bool // "qualified struct type.field": struct-typed field whose address escapes
 	workDir     string
 	timeoutS    int
 	verbose     bool
@@ -109,6 +111,11 @@ func (eng *Engine) evalGoType(al SortAlias) types.Type {
 	panic(specErr("cannot evaluate Go type " + al.GoExpr + " for sort " + al.Name))
 }
 
+func (eng *Engine) nextEpoch() int {
+	eng.epochCounter++
+	return eng.epochCounter
+}
+
 func (eng *Engine) specialSort(t types.Type) (string, bool) { return "", false }
 
 func (eng *Engine) sigOf(fc *FuncContract) *types.Signature {
@@ -135,7 +142,7 @@ func (eng *Engine) ifaceContract(c *ssa.CallCommon) *FuncContract {
 func newEngine(repo, specDir string) *Engine {
 	return &Engine{repo: repo, specDir: specDir, spkgs: map[string]*ssa.Package{}, allFuncs: map[string]*ssa.Function{},
 		ghosts: map[string]*ghostDecl{}, rawAccessors: map[string]rawAcc{}, lenFns: map[string]string{}, immHeaps: map[string]bool{},
-		rawDeclared: map[string]bool{}, implCache: map[string][]types.Type{}, aliasCache: map[string]types.Type{}, specInfos: map[*VCGen]map[string]*specFnInfo{}, timeoutS: 10}
+		rawDeclared: map[string]bool{}, implCache: map[string][]types.Type{}, aliasCache: map[string]types.Type{}, outOfLine: map[string]bool{}, specInfos: map[*VCGen]map[string]*specFnInfo{}, timeoutS: 10}
 }
 
 // load loads the given module directories (relative to repo) with the verif tag.
@@ -195,6 +202,7 @@ func (eng *Engine) load(dirs []string) error {
 			}
 		}
 	}
+	eng.findOutOfLineFields()
 	// immutable heaps
 	for k := range eng.contracts.Immut {
 		i := strings.LastIndex(k, ".")
@@ -403,4 +411,70 @@ func coverOnly(o Obligation) []string {
 		return []string{"z3-5.1.0"}
 	}
 	return nil
+}
+
+// findOutOfLineFields: a struct-typed field whose address is used for anything but an immediate load, store or
+// further field selection (typically: as the receiver of a pointer method) is modelled as a separate heap cell
+// owned by the enclosing object (ref = fld(owner, field index)); the pointer can then flow anywhere.
+func (eng *Engine) findOutOfLineFields() {
+	for fn := range ssautil.AllFunctions(eng.prog) {
+		for _, b := range fn.Blocks {
+			for _, in := range b.Instrs {
+				fa, ok := in.(*ssa.FieldAddr)
+				if !ok {
+					continue
+				}
+				pt, ok := fa.X.Type().Underlying().(*types.Pointer)
+				if !ok {
+					continue
+				}
+				st, ok := pt.Elem().Underlying().(*types.Struct)
+				if !ok {
+					continue
+				}
+				if _, isStruct := st.Field(fa.Field).Type().Underlying().(*types.Struct); !isStruct {
+					continue
+				}
+				if fa.Referrers() == nil {
+					continue
+				}
+				for _, r := range *fa.Referrers() {
+					esc := true
+					switch x := r.(type) {
+					case *ssa.UnOp, *ssa.FieldAddr, *ssa.DebugRef:
+						esc = false
+					case *ssa.Store:
+						esc = x.Val == ssa.Value(fa)
+					}
+					if esc {
+						eng.outOfLine[outOfLineKey(pt.Elem(), st, fa.Field)] = true
+					}
+				}
+			}
+		}
+	}
+}
+
+func outOfLineKey(owner types.Type, st *types.Struct, field int) string {
+	return qualTypeName(owner) + "." + st.Field(field).Name()
+}
+
+func (eng *Engine) isOutOfLine(owner types.Type, st *types.Struct, field int) bool {
+	if n, ok := owner.(*types.Named); ok && n.Obj().Pkg() != nil && eng.contracts.Immut[n.Obj().Pkg().Path()+"."+n.Obj().Name()] {
+		return false // write-once objects keep all fields inline (abs must not depend on a mutable heap)
+	}
+	return eng.outOfLine[outOfLineKey(owner, st, field)]
+}
+
+func (eng *Engine) hasOutOfLineFields(t types.Type) bool {
+	st, ok := t.Underlying().(*types.Struct)
+	if !ok {
+		return false
+	}
+	for i := 0; i < st.NumFields(); i++ {
+		if eng.isOutOfLine(t, st, i) {
+			return true
+		}
+	}
+	return false
 }
